@@ -336,3 +336,8 @@ func (t *VT) NBTxLegacy2Nb(arg string, k1 string, k2 string, s1 string, s2 strin
 	}
 	return addr.String(), nil
 }
+
+// QueryTouch is a query without any parameter whose body attempts every kind of write.
+func (t *VT) QueryTouch() (string, error) {
+	return t.run("put:qk:qv;del:seedk;evt:qe:payload;vp:qk:ep;pput:col:qk:v;pdel:col:qk;ppurge:col:qk;pvp:col:qk:ep")
+}
